@@ -22,6 +22,7 @@ from mitmproxy.net.http import url as murl
 from mitmproxy.net.http.validate import validate_headers
 
 LIFECYCLE = ("requestheaders", "request", "responseheaders", "response", "error")
+HTTP_HOOKS = LIFECYCLE + ("http_connect", "http_connected", "http_connect_error")
 ACTIONS = ("pass", "kill", "resp", "stream")
 
 # ------------------------------------------------------------------------------------------------
@@ -182,6 +183,8 @@ class Recorder:
             return "H:" + cmd.name
         if isinstance(cmd, lhttp.SendHttp):
             side = "c" if cmd.connection is s.context.client else "s"
+            if side == "s" and isinstance(cmd.event, hev.RequestHeaders) and s.client_state != s.state_done:
+                s._v_streamed = True      # sent by start_request_stream (the unstreamed path sends it in state_done)
             return f"S:{side}:{_EVNAME.get(type(cmd.event), '?')}"
         if isinstance(cmd, lhttp.DropStream): return "D"
         if isinstance(cmd, lhttp.GetHttpConnection): return "G"
@@ -462,7 +465,7 @@ class Check(PropertyCheck):
     fingerprints = []
     trusted_base = []
     parallel = True
-    has_model = False
+    has_model = True
 
     def generate(self, rng, tier):
         for name, steps in SKELETONS:
@@ -479,7 +482,11 @@ class Check(PropertyCheck):
         for s in rec.streams:
             out["streams"].append({"id": s.stream_id, "log": [[e["in"], e["out"], int(e["pt"])] for e in rec.logs[id(s)]],
                                    "cs": s.client_state.__name__[6:], "ss": s.server_state.__name__[6:],
-                                   "live": bool(getattr(getattr(s, "flow", None), "live", False))})
+                                   "live": bool(getattr(getattr(s, "flow", None), "live", False)),
+                                   "pt": s._handle_event == s.passthrough,
+                                   "connect": bool(getattr(s, "flow", None) and s.flow.request.method == "CONNECT"),
+                                   "websocket": bool(getattr(s, "flow", None) and s.flow.websocket),
+                                   "streamed_up": bool(getattr(s, "_v_streamed", False))})
         return out
 
     def oracle(self, case, obs):
@@ -490,3 +497,66 @@ class Check(PropertyCheck):
             for f in lifecycle_failures(fl["hooks"], fl) + closure_failures(fl["hooks"], fl):
                 fails.append(f"flow {i} {fl['hooks']}: {f}")
         return fails
+
+    # ---- model tie: every real HttpStream's input sequence is replayed through the Lean model -----------------
+    def model_lines(self, case):
+        obs = getattr(self, "_last_obs", None)
+        if obs is None or obs[0] is not case:
+            obs = (case, self.impl(case))
+        lines = []
+        o = case.get("opts", {})
+        inner = sum(1 for st in obs[1]["streams"] for _, out, _ in st["log"] for t in out if t.startswith("X:"))
+        if len(obs[1]["crashes"]) > inner:
+            # an exception was raised outside HttpStream (Http1Server/HttpLayer/server assertions) while a stream
+            # generator was suspended at a yield: that generator is abandoned half-way, which the model does not
+            # represent.  Such runs are judged by the direct oracle only.
+            raise Skip("exception outside HttpStream abandoned a generator")
+        for st in obs[1]["streams"]:
+            lines.append(f"reset {o.get('limit', 0)} {o.get('stream', 0)}")
+            for inp, out, pt in st["log"]:
+                if inp == "start" or pt: continue
+                if inp.startswith("other:") or inp in ("rt", "st"): raise Skip("input outside the model")
+                lines.append(inp)
+            lines.append("end")
+        return lines
+
+    @staticmethod
+    def _norm_end(line, must_settle):
+        """final line: `live` is not compared once the stream is a pipe (the child layer owns the flow then);
+        `settled` is only claimed for request/response flows that fired requestheaders"""
+        kv = dict(x.split("=") for x in line.split())
+        if kv["pt"] == "1": kv["live"] = "*"
+        if not must_settle: kv["settled"] = "*"
+        return " ".join(f"{k}={v}" for k, v in kv.items())
+
+    def _must_settle(self, st):
+        ispt = any(pt for _, _, pt in st["log"]) or st["pt"]
+        fired = any("H:requestheaders" in o for _, o, _ in st["log"])
+        return fired and not ispt and not st["connect"] and not st["websocket"]
+
+    def model_obs(self, case, replies):
+        out, cur = [], None
+        for r in replies:
+            if r == "ok": cur = []; out.append(cur)
+            else: cur.append(r)
+        obs = self._last_obs[1] if getattr(self, "_last_obs", None) and self._last_obs[0] is case else self.impl(case)
+        for cur, st in zip(out, obs["streams"]):
+            if cur and cur[-1].startswith("live="): cur[-1] = self._norm_end(cur[-1], self._must_settle(st))
+        return out
+
+    def impl_view(self, case, obs):
+        out = []
+        for st in obs["streams"]:
+            cur = []
+            for inp, o, pt in st["log"]:
+                if inp == "start" or pt: continue
+                toks = [("X" if t.startswith("X:") else t) for t in o if not (t.startswith("H:") and t[2:] not in HTTP_HOOKS)]
+                cur.append(" ".join(toks) if toks else "-")
+            ispt = any(pt for _, _, pt in st["log"]) or st["pt"]
+            # after everything is closed and every hook completed: the model must agree that the stream is settled,
+            # that no input fell outside its event grammar, and that nothing is pending
+            end = (f"live={int(st['live'])} cs={st['cs']} ss={st['ss']} pt={int(ispt)} settled=1 bad=0 paused=0 "
+                   f"streamed={int(st['streamed_up'])}")
+            cur.append(self._norm_end(end, self._must_settle(st)))
+            out.append(cur)
+        return out
